@@ -59,7 +59,9 @@ WrapOk(r) ==
 UnwrapOk(r) ==
   LET P == Params(r.l)
   IN IF ~InRange(P, Num(r.d)) THEN r.rc = "BAD_PRIVKEY"
-     ELSE LET u == KeyUnwrap(P, r.token, HdrOf(r), Num(r.d))
+     ELSE IF Len(r.token) < P.no + 32 \/ ~Less(Num(SubSeq(r.token, 1, P.no)), P.p) THEN r.rc = "BAD_KEYTOKEN"
+     ELSE r.lvl = 1 =>
+          LET u == KeyUnwrap(P, r.token, HdrOf(r), Num(r.d))
           IN IF u[1] THEN r.rc = "OK" /\ r.key = u[2] ELSE r.rc = "BAD_KEYTOKEN"
 DhSide(P, rc, key, d, Qo, n, lvl) ==
   IF n > 2 * P.no THEN rc = "BAD_SHAREDKEY"
